@@ -76,6 +76,9 @@ def work(tier, seed):
     for nvals in (1300,):
         items.append({"kind": "wide_groups", "nvals": nvals, "ncols": 3})
     items.append({"kind": "wide_groups", "nvals": 50000, "ncols": 2})
+    # many group columns: the product of the level counts exceeds 2^64 (14 x 32 levels, 9 x 256) with few groups
+    items.append({"kind": "many_columns", "ncols": 14, "levels": 32, "groups": 64})
+    items.append({"kind": "many_columns", "ncols": 9, "levels": 256, "groups": 300})
     for ncols in (1, 2):
         items.append({"kind": "nul", "ncols": ncols})
     items.append({"kind": "errors"})
@@ -218,6 +221,8 @@ def run(item, ctx, tier, seed):
         return _run_bigint(item, ctx, b)
     if item["kind"] == "wide_groups":
         return _run_wide_groups(item, ctx, b)
+    if item["kind"] == "many_columns":
+        return _run_many_columns(item, ctx, b)
     if item["kind"] == "nul":
         return _run_nul(item, ctx, b)
     rows = make_rows(item)
@@ -602,6 +607,68 @@ def _run_wide_groups(item, ctx, b):
                     ctx.fail("entry-is-metric-of-that-groups-rows", dict(case, group=repr(key)), observed=g, expected=want)
                     break
     ctx.sample({"kind": "wide_groups", "values_per_column": nv, "ncols": ncols, "groups": len(groups)})
+    return None
+
+
+def _run_many_columns(item, ctx, b):
+    """Few groups described by many attribute columns with many levels each (product of level counts > 2^64)."""
+    from score_analysis import showbias
+
+    ncols, L, G = item["ncols"], item["levels"], item["groups"]
+    names = ["c%02d" % j for j in range(ncols)]
+    keys, labs, scs = [], [], []
+    for g_ in range(G):
+        # every column takes all L levels over the groups; neighbouring groups differ in the leading columns only
+        key = tuple("v%03d" % ((g_ * (j + 1) * 7 + (g_ // (j + 2)) + j) % L) for j in range(ncols))
+        for r in range(2 + (g_ % 3 == 0) * 4):
+            keys.append(key)
+            labs.append(1 if (g_ + r) % 2 else 0)
+            scs.append(((g_ * 13 + r * 29) % 97) / 97.0)
+    # make sure every level of every column occurs (so that the product of level counts is L ** ncols)
+    for lv in range(L):
+        key = tuple("v%03d" % ((lv + j) % L) for j in range(ncols))
+        for r in range(2):
+            keys.append(key)
+            labs.append(r)
+            scs.append(((lv * 5 + r * 31) % 89) / 89.0)
+    order = sorted(range(len(keys)), key=lambda i: (i * 7919) % len(keys))
+    keys, labs, scs = [keys[i] for i in order], [labs[i] for i in order], [scs[i] for i in order]
+    df = pd.DataFrame({names[j]: [k[j] for k in keys] for j in range(ncols)})
+    df["lab"], df["sc"] = labs, scs
+    groups = {}
+    for k, l, s_ in zip(keys, labs, scs):
+        groups.setdefault(k, ([], []))[0 if l == 1 else 1].append(s_)
+    tl = [0.5, 0.25, 0.75]
+    for cfg in CFGS[:2]:
+        for metric in ("tpr", "fpr"):
+            for how in (None, "by_overall"):
+                case = {"kind": "many_columns", "ncols": ncols, "levels_per_column": L, "groups": len(groups), "rows": len(keys),
+                        "metric": metric, "normalize": how, "cfg": list(cfg), "threshold": tl}
+                ctx.state()
+                ctx.nontrivial()
+                ok, bf = guarded(ctx, "showbias", case, lambda: showbias(df, names, "lab", "sc", metric, threshold=tl, normalize=how,
+                                                                         score_class=cfg[0], equal_class=cfg[1]))
+                ctx.tick(len(groups))
+                if not ok:
+                    continue
+                got = table_of(bf.values)
+                if len(bf.values.index) != len(groups) or set(got) != set(groups):
+                    ctx.fail("rows-labelled-with-the-groups-of-their-rows", case, observed={"rows": len(bf.values.index)}, expected={"rows": len(groups)})
+                    continue
+                allp = [s_ for s_, l in zip(scs, labs) if l == 1]
+                alln = [s_ for s_, l in zip(scs, labs) if l != 1]
+                overall = [metric_value(refs.ref_cm(allp, alln, t, cfg[0], cfg[1]), metric) for t in tl]
+                for key, (p_, n_) in groups.items():
+                    raw = [metric_value(refs.ref_cm(p_, n_, t, cfg[0], cfg[1]), metric) for t in tl]
+                    want = [fval(v) if how is None or v is None or o in (None, 0) else float(v / o) for v, o in zip(raw, overall)]
+                    g = got[key]
+                    if how is not None and any(v is None for v in raw):
+                        continue
+                    if not all((math.isnan(a) and math.isnan(w)) or abs(a - w) <= 1e-12 * max(1.0, abs(w)) for a, w in zip(g, want)):
+                        ctx.fail("entry-is-metric-of-that-groups-rows" if how is None else "normalised-entry", dict(case, group=repr(key)),
+                                 observed=g, expected=want)
+                        break
+    ctx.sample({"kind": "many_columns", "ncols": ncols, "levels": L, "groups": len(groups)})
     return None
 
 
